@@ -164,8 +164,15 @@ def fixture_dir(shape):
 # builders
 
 
-def build(shape, eoe, default_config_files=None):
-    """A fresh parser of the given shape.  eoe = exit_on_error."""
+AUX_SHAPES = ("D", "F")  # shapes with auxiliary parsers (sub-parsers of D, the ActionParser's inner parser of F)
+
+
+def build(shape, eoe, default_config_files=None, subs="same"):
+    """A fresh parser of the given shape.  eoe = exit_on_error.
+
+    subs: how the auxiliary parsers of the shape are constructed: "same" = explicitly with the exit_on_error value
+    of the main parser, "default" = with default settings (`ArgumentParser()`), relying on the documented
+    inheritance of the parent's settings when they are attached."""
     from typing import Any, Callable, Dict, List, Optional, Type
 
     from decimal import Decimal
@@ -179,6 +186,9 @@ def build(shape, eoe, default_config_files=None):
     if default_config_files is not None:
         kw["default_config_files"] = default_config_files
     p = ArgumentParser(**kw)
+    if subs not in ("same", "default"):
+        raise AssertionError(subs)
+    sub_kw = {} if subs == "default" else dict(exit_on_error=eoe)
     if shape == "A":
         p.add_argument("--cfg", action=ActionConfigFile)
         p.add_argument("--i", type=int, default=1)
@@ -208,7 +218,6 @@ def build(shape, eoe, default_config_files=None):
     elif shape == "D":
         p.add_argument("--cfg", action=ActionConfigFile)
         p.add_argument("--t", type=int, default=1)
-        sub_kw = dict(exit_on_error=eoe)
         s1 = ArgumentParser(**sub_kw)
         s1.add_argument("--cfg", action=ActionConfigFile)
         s1.add_argument("--a", type=int, default=1)
@@ -244,7 +253,7 @@ def build(shape, eoe, default_config_files=None):
         p.add_argument("--nq", type=int, nargs="?", const=9, default=0)
         p.add_argument("--ch", choices=["x", "y"], default="x")
         p.add_argument("--yn", action=ActionYesNo, default=False)
-        inner = ArgumentParser(exit_on_error=eoe)
+        inner = ArgumentParser(**sub_kw)
         inner.add_argument("--v", type=int, default=1)
         inner.add_argument("--u", type=str, default="u")
         p.add_argument("--inner", action=ActionParser(parser=inner))
